@@ -33,6 +33,12 @@
 //	tls <op,…>        as life, but the POP3 server runs with TLSEnabled+ForceTLS (self-signed certificate made at
 //	                  run time) and POP3 clients speak TLS; extra op xP: a plain-text client on the TLS port      -> dropped
 //
+//	early <mode> <busy>  shutdown requested BEFORE or DURING start-up of the assembled server (ports picked beforehand):
+//	                  mode pre = Services.Start is called with an already-cancelled context; race = cancel right after
+//	                  Services.Start returned; clash = the port of <busy> (web|smtp|pop3) is taken, the failure is notified and
+//	                  main cancels at once. Afterwards every port the server bound must be closed again (a dial is refused
+//	                  AND the address can be bound), the drains and the Join return                      -> web=… smtp=… pop3=… returns|stuck:…
+//
 //	boot <wsp> <period>  the assembled server (server.FullAssembly + Services.Start) with any subset of the three
 //	                  listeners (web, smtp, pop3: mask of 0/1) unable to bind: is readyFunc called, is a failure
 //	                  notified, and does what main() does next (cancel, Drain, Drain, Join) return?
@@ -1030,6 +1036,10 @@ func exec(kind string, in []string) []string {
 	if err != nil {
 		return run1(kind, in)
 	}
+	return execChild(self, kind, in, 0)
+}
+
+func execChild(self, kind string, in []string, attempt int) []string {
 	cmd := osexec.Command(self, append([]string{"child", kind}, in...)...)
 	var stdout, stderr bytes.Buffer
 	cmd.Stdout, cmd.Stderr = &stdout, &stderr
@@ -1046,7 +1056,136 @@ func exec(kind string, in []string) []string {
 		fmt.Fprintf(os.Stderr, "case %s %s: child died: %v\n%s\n", kind, strings.Join(in, " "), err, stderr.String())
 		return []string{"CRASH", vh.HS(msg)}
 	}
-	return strings.Fields(stdout.String())
+	f := strings.Fields(stdout.String())
+	if attempt < 3 && vh.PortClash(f) {
+		return execChild(self, kind, in, attempt+1)
+	}
+	return f
+}
+
+// pickPort: bind-note-release.
+func pickPort() (string, error) {
+	l, err := net.Listen("tcp4", "127.0.0.1:0")
+	if err != nil {
+		return "", err
+	}
+	a := l.Addr().String()
+	l.Close()
+	return a, nil
+}
+
+// portState: closed = a dial is refused and the address can be bound again (within a grace period).
+func portState(addr string) string {
+	deadline := time.Now().Add(2 * time.Second)
+	for {
+		dialOK := false
+		if c, err := net.DialTimeout("tcp4", addr, 300*time.Millisecond); err == nil {
+			c.Close()
+			dialOK = true
+		}
+		bindOK := false
+		if l, err := net.Listen("tcp4", addr); err == nil {
+			l.Close()
+			bindOK = true
+		}
+		if !dialOK && bindOK {
+			return "closed"
+		}
+		if time.Now().After(deadline) {
+			if dialOK {
+				return "listening"
+			}
+			return "bound"
+		}
+		time.Sleep(50 * time.Millisecond)
+	}
+}
+
+func runEarly(mode, busy string) []string {
+	base := os.Getenv("VERIF_WORKDIR")
+	if base == "" {
+		base = os.TempDir()
+	}
+	dir, err := os.MkdirTemp(base, "c19early")
+	if err != nil {
+		return []string{"SETUPERR", "-"}
+	}
+	defer os.RemoveAll(dir)
+	for _, e := range os.Environ() {
+		if strings.HasPrefix(e, "INBUCKET_") {
+			os.Unsetenv(strings.SplitN(e, "=", 2)[0])
+		}
+	}
+	storage.Constructors["memory"] = mem.New
+	setenv("INBUCKET_STORAGE_TYPE", "memory")
+	setenv("INBUCKET_WEB_UIDIR", dir)
+	names := []string{"web", "smtp", "pop3"}
+	addrs := map[string]string{}
+	var holder net.Listener
+	for _, n := range names {
+		a, err := pickPort()
+		if err != nil {
+			return []string{"SETUPERR", "-"}
+		}
+		addrs[n] = a
+		setenv("INBUCKET_"+strings.ToUpper(n)+"_ADDR", a)
+	}
+	if mode == "clash" {
+		holder, err = net.Listen("tcp4", addrs[busy])
+		if err != nil {
+			return []string{"SETUPERR", vh.HS(err.Error())}
+		}
+		defer holder.Close()
+	}
+	conf, err := config.Process()
+	if err != nil {
+		return []string{"SETUPERR", "-"}
+	}
+	svc, err := server.FullAssembly(conf)
+	if err != nil {
+		return []string{"SETUPERR", vh.HS(err.Error())}
+	}
+	ctx, cancel := context.WithCancel(context.Background())
+	defer cancel()
+	switch mode {
+	case "pre":
+		cancel()
+		svc.Start(ctx, func() {})
+	case "race":
+		svc.Start(ctx, func() {})
+		cancel()
+	case "clash":
+		svc.Start(ctx, func() {})
+		select {
+		case err := <-svc.Notify():
+			// the failure must be the one we arranged; any other "address already in use" is the sandbox
+			if err == nil || !strings.Contains(err.Error(), "address already in use") {
+				return []string{"fail:unexpected-notify"}
+			}
+		case <-time.After(longWait):
+			return []string{"fail:bind-failure-not-notified"}
+		}
+		cancel()
+	}
+	outs := []string{}
+	for _, n := range names {
+		if mode == "clash" && n == busy {
+			outs = append(outs, n+"=held-by-harness")
+			continue
+		}
+		outs = append(outs, n+"="+portState(addrs[n]))
+	}
+	switch {
+	case !within(longWait, svc.SMTPServer.Drain):
+		outs = append(outs, "stuck:smtp-drain")
+	case !within(longWait, svc.POP3Server.Drain):
+		outs = append(outs, "stuck:pop3-drain")
+	case !within(longWait, svc.RetentionScanner.Join):
+		outs = append(outs, "stuck:retention-join")
+	default:
+		outs = append(outs, "returns")
+	}
+	return outs
 }
 
 // runBoot: Services.Start with some listeners unable to bind (their address is held by the driver).
@@ -1140,6 +1279,8 @@ func run1(kind string, in []string) []string {
 	switch kind {
 	case "boot":
 		return runBoot(in[0], in[1])
+	case "early":
+		return runEarly(in[0], in[1])
 	case "scan":
 		kind := "mem"
 		if len(in) > 3 {
